@@ -78,7 +78,7 @@ def step (mods : Mods) : List String → Mods × String
     | none => (mods, "bad-op")
   | ["iconst", k, name] =>
     match nat? k with
-    | some k => (mods, match fetchConst mods name 101 k with
+    | some k => (mods, match fetchConst mods name constFuel k with
         | .ok (some v) => s!"ok {v}"
         | .ok none => "ok none"
         | .error e => s!"err {errName e}")
@@ -92,7 +92,7 @@ def step (mods : Mods) : List String → Mods × String
     | none => (mods, "bad-op")
   | ["depth", k] =>
     match nat? k with
-    | some k => (mods, if depthOk mods 101 k then "ok 1" else "ok 0")
+    | some k => (mods, if depthOk mods libFuel k then "ok 1" else "ok 0")
     | none => (mods, "bad-op")
   | _ => (mods, "bad-op")
 
